@@ -114,3 +114,30 @@ theorem C10_reported_links {K : Type} [Scalar K] (main mon : St K) (exc : PinRef
   intro l hmem
   have := St.linkPins_sound main mon r.links hl l hmem
   exact ⟨this.1, this.2.1⟩
+
+/-- **the table**: `get_monitor` lists, per reported link and in the order of the links, the column `<monitor>_<pin>_i` followed by
+`<monitor>_<pin>_o` (names of the monitored side's structure and pin) - nothing else - and the power-mode table is the
+amplitude-mode table with every value replaced by its view (the squared modulus) -/
+theorem C10_table_columns {K G : Type} [Scalar K] (monName : Nat → String) (view : K → G) (r : Monitor.Readout K)
+    (hi : r.inward.length = r.links.length) (ho : r.outward.length = r.links.length) :
+    (Monitor.tabulate monName view r).map (·.1) =
+      r.links.flatMap (fun l => [monName l.2.1 ++ "_" ++ l.2.2 ++ "_i", monName l.2.1 ++ "_" ++ l.2.2 ++ "_o"]) ∧
+    Monitor.tabulate monName view r = (Monitor.tabulate monName id r).map (fun kv => (kv.1, view kv.2)) := by
+  obtain ⟨links, inw, outw⟩ := r
+  simp only at hi ho
+  unfold Monitor.tabulate
+  simp only
+  constructor
+  · induction links generalizing inw outw with
+    | nil => simp
+    | cons l ls ih =>
+      cases inw with
+      | nil => simp at hi
+      | cons a as =>
+        cases outw with
+        | nil => simp at ho
+        | cons b bs =>
+          simp only [List.zip_cons_cons, List.flatMap_cons, List.map_append, List.map_cons, List.map_nil, List.length_cons,
+            Nat.add_right_cancel_iff] at hi ho ⊢
+          rw [ih as bs hi ho]
+  · simp [List.map_flatMap, id]
